@@ -31,7 +31,7 @@ def cases(tier, seed):
     def add(kind, **prm):
         out.append({'kind': kind, 'seed': case_seed('C09', seed, kind, sorted(prm.items())), 'params': prm})
     for rep in range(reps):
-        for N in Ns:
+        for N in Ns + ([4, 6] if 4 not in Ns else [6]):
             for pt in ('int', 'real'):
                 add('jac', N=N, M=[1, 3][rep % 2], point=pt, rep=rep)
                 add('hess', N=N, point=pt, rep=rep)
@@ -39,6 +39,8 @@ def cases(tier, seed):
                     if math.comb(N + d - 1, d) <= bound:
                         add('tensor', N=N, d=d, point=pt, rep=rep)
             add('smooth', N=min(N, 4), rep=rep)
+        for (N, d) in ([(1, 11), (2, 11), (1, 16), (2, 13)] if tier == 'quick' else [(N, d) for N in (1, 2) for d in (11, 12, 13, 14, 16, 18)]):
+            add('tensor', N=N, d=d, point='real', rep=rep)
     return out
 
 
@@ -117,7 +119,12 @@ def _hess(ctx, p, rng):
     v = np.round(rng.normal(size=N) * 1.5, 3); vq = [Fraction(float(t)) for t in v]
     style = int(rng.integers(6))
     try:
-        X = UTPM.init_hessian(x.copy())
+        xh = x.copy()
+        if N >= 4 and N % 2 == 0 and style % 2:
+            xh = np.asfortranarray(x.reshape(2, N // 2))          # a non-C-ordered 2-D array: init_hessian ravels it in logical order
+        elif N >= 4 and N % 2 == 0:
+            xh = np.ascontiguousarray(x.reshape(N // 2, 2).T).T     # transposed view
+        X = UTPM.init_hessian(xh)
         Y = PP.evaluate(algopy, [poly], X, style)
         H = np.asarray(UTPM.extract_hessian(N, Y))
     except Exception as e:
@@ -163,7 +170,10 @@ def _tensor(ctx, p, rng):
     style = int(rng.integers(6))
     J = [tuple(int(v) for v in row) for row in np.asarray(EI.generate_multi_indices(N, d))]
     try:
-        X = UTPM.init_tensor(d, x.copy())
+        xt = x.copy()
+        if p['point'] == 'int':
+            xt = [x.astype(np.int32), x.astype(np.int16), x.astype(int), x.copy()][style % 4]      # integer seeds of any width
+        X = UTPM.init_tensor(d, xt)
         Y = PP.evaluate(algopy, [poly], X, style)
         T1 = np.asarray(UTPM.extract_tensor(N, Y, as_full_matrix=False))
         Hf = np.asarray(UTPM.extract_tensor(N, Y, as_full_matrix=True)) if d == 2 else None
@@ -172,13 +182,18 @@ def _tensor(ctx, p, rng):
         ctx.violation('tensor:raises:' + type(e).__name__, {'N': N, 'd': d, 'error': repr(e)[:200]}); return
     if T1.shape != (len(J),):
         ctx.violation('tensor:shape', {'got': T1.shape, 'want': (len(J),)}); return
-    # all d-th order coefficients along the rays have the size of sum_alpha |partial|/alpha! * ray^alpha: common scale
+    # result_i = sum_j Gamma[i,j] * c_j with c_j the exact d-th Taylor coefficient along ray j: scale_i = sum_j |Gamma[i,j]| |c_j|
     total = sum(poly.partial(a).absval(xq) / math.prod(math.factorial(k) for k in a) for a in J)
+    Gm, rays = EI.generate_Gamma_and_rays(N, d)
+    part = {a: poly.partial(a)(xq) / math.prod(math.factorial(k) for k in a) for a in J}
+    cj = [sum(part[a] * math.prod(Fraction(int(r[n])) ** a[n] for n in range(N)) for a in J) for r in np.asarray(rays)]
+    scales = [sum(abs(Fraction(float(Gm[i, j]))) * abs(cj[j]) for j in range(len(J))) + total * Fraction(1, 10 ** 6) for i in range(len(J))]
+    tau_d = 1e-10 if d <= 10 else 3e-10 * 10.0 ** ((d - 10 + 1) // 2)
     worst = 0.0
     for T, tag in ((T1, 'first'), (T2, 'repeat')):
-        for a, got in zip(J, T):
-            ref = poly.partial(a)(xq) / math.prod(math.factorial(k) for k in a)
-            ok, e = _close(got, ref, total * d ** d, 1e-10)
+        for i_, (a, got) in enumerate(zip(J, T)):
+            ref = part[a]
+            ok, e = _close(got, ref, scales[i_], tau_d)
             worst = max(worst, e)
             if not ok:
                 ctx.violation('tensor:value:%s:%s' % ('d<=3' if d <= 3 else 'd>=4', tag), {'N': N, 'd': d, 'alpha': a, 'got': float(got), 'want': float(ref), 'x': x.tolist()}); return
